@@ -69,7 +69,13 @@ fn chunk_data<const R: u64, const N: usize>() {
                 _ => assert!(false, "C17.chunk.state_lost: the sink leaves the chunked-body states in the middle of a chunk (further writes fail with 'Invalid state')"),
             }
             if !tail.is_empty() {
-                assert!(wait_ok(&mut s), "C17.chunk.wait: wait_writable fails after a write that returned unsent bytes");
+                // what the pipe does next is wait_writable(): it must wait for the client side iff the client pushed back,
+                // and must not fail ("Invalid state") when the remainder is only due to framing
+                if accepted < body_in_data {
+                    assert!(!s.fake_unsent && matches!(&s.state, SinkState::TransferringBodyChunked(_)), "C17.chunk.backpressure: after the client side pushed back the sink must wait for it (not report itself writable at once)");
+                } else {
+                    assert!(s.fake_unsent || matches!(&s.state, SinkState::WaitingChunkPrefix(_) | SinkState::WaitingChunkSuffix(_)), "C17.chunk.wait: wait_writable would fail or block after a write whose remainder is only framing");
+                }
             }
             kani::cover!(accepted < body_in_data, "C17.cover.chunk_partial_accept");
             kani::cover!(left == 0, "C17.cover.chunk_complete");
@@ -194,7 +200,7 @@ fn chunk_suffix<const B: usize, const TERM: bool, const N: usize>() {
                 }
                 assert!(prefix_sink::eofs() == 0, "C17.suffix.early_eof");
                 if !tail.is_empty() {
-                    assert!(wait_ok(&mut s), "C17.suffix.wait: wait_writable fails after a write that returned unsent bytes");
+                    assert!(s.fake_unsent || matches!(&s.state, SinkState::WaitingChunkPrefix(_) | SinkState::WaitingChunkSuffix(_)), "C17.suffix.wait: wait_writable would fail after a write whose remainder is only framing");
                 }
             }
             kani::cover!(true, "C17.cover.suffix_ok");
@@ -211,4 +217,30 @@ fn chunk_suffix<const B: usize, const TERM: bool, const N: usize>() {
  "encodes": ["http_forwarded_stream::ForwardedStreamSink::on_encoded_chunk_suffix"],
  "quick": "[(0,'false',1,'data'),(0,'false',2,'data'),(0,'false',4,'data'),(1,'false',1,'data'),(1,'false',3,'data'),(0,'true',2,'last'),(1,'true',1,'last'),(0,'true',4,'last')]",
  "thorough": "[(1,'true',3,'last'),(0,'true',1,'last'),(1,'false',2,'data'),(0,'false',3,'data')]"}
+@*/
+
+/// wait_writable per state: immediate when the previous write only stopped at a framing boundary, delegated to the
+/// client-side sink inside a body, an error only where no response is in progress.
+fn wait_table<const KIND: usize, const FAKE: bool>() {
+    prefix_sink::reset([0, 0, 0, 0]);
+    let mut ps = ManuallyDrop::new(PrefixSink);
+    let state = match KIND {
+        0 => SinkState::Idle,
+        1 => SinkState::TransferringBodyNonEncoded(SinkTransferringBodyNonEncoded { sink: mk_sink(&mut ps), body_length: None, sent_bytes: 0 }),
+        2 => SinkState::TransferringBodyChunked(SinkTransferringBodyChunked { sink: mk_sink(&mut ps), remaining_chunk_size: Some(1) }),
+        3 => SinkState::WaitingChunkPrefix(SinkWaitingChunkPrefix { buffer: BytesMut::new(), sink: mk_sink(&mut ps) }),
+        _ => SinkState::WaitingChunkSuffix(SinkWaitingChunkSuffix { buffer: BytesMut::new(), terminating_chunk: false, sink: mk_sink(&mut ps) }),
+    };
+    let mut s = ManuallyDrop::new(ForwardedStreamSink { state, fake_unsent: FAKE, id: log_utils::IdChain::empty() });
+    let ok = wait_ok(&mut s);
+    assert!(ok == (FAKE || KIND != 0), "C17.wait.table: wait_writable must succeed in every body state and after a framing-only remainder");
+    assert!(!s.fake_unsent, "C17.wait.flag: the framing-remainder flag must be consumed by wait_writable");
+}
+
+/*@gen
+{"name": "c17_wait_writable_state{0}_fake{1}", "call": "wait_table::<{0}, {1}>()", "unwind": 12, "stubs": ["bytes", "bytesmut", "fmt", "nofree"], "core": false,
+ "bound": "state #{0} (0 Idle, 1 identity body, 2 chunk data, 3 chunk header, 4 chunk terminator), framing-remainder flag {1}",
+ "desc": "wait_writable succeeds in every body state and after a framing-only remainder, and consumes the flag",
+ "encodes": ["http_forwarded_stream::ForwardedStreamSink::wait_writable"],
+ "quick": "[]", "thorough": "[(k, f) for k in range(5) for f in ('true', 'false')]"}
 @*/
